@@ -971,6 +971,15 @@ class Gen:
             for k in ("node_scan_duration", "folder_scan_duration", "folder_restore_duration", "service_fix_duration", "service_restart_duration"):
                 if self.chance(0.5):
                     d[k] = r.choice(self.p["default_durations"])
+            if self.p.get("power_defaults"):
+                for k in ("node_start_up_duration", "node_shut_down_duration"):
+                    if self.chance(0.5):
+                        d[k] = r.choice(self.p["default_durations"])
+                # some nodes rely on the default
+                for n in self.nodes:
+                    if self.chance(0.4):
+                        n.pop("start_up_duration", None)
+                        n.pop("shut_down_duration", None)
             if "zero_folder_durations" in self.avoid:
                 for k in ("folder_scan_duration", "folder_restore_duration"):
                     if d.get(k) == 0:
